@@ -73,7 +73,8 @@ void close_socket(NativeSocket socket) {
 
 #endif
 
-constexpr std::size_t kMaxLineLength = 16 * 1024;
+// A header value may carry a whole chunk listing on one (escaped) line.
+constexpr std::size_t kMaxLineLength = 1024 * 1024;
 constexpr std::size_t kTransferChunk = 64 * 1024;
 std::string to_upper(std::string value) {
     std::transform(value.begin(), value.end(), value.begin(), [](unsigned char ch) {
@@ -148,6 +149,24 @@ bool recv_exact(NativeSocket socket,
     return true;
 }
 
+// Inverse of the daemon's header value escaping: \n, \r and \\ stand for line feed, carriage return and backslash.
+std::string unescape_value(const std::string& value) {
+    std::string plain;
+    plain.reserve(value.size());
+    for (std::size_t i = 0; i < value.size(); ++i) {
+        if (value[i] == '\\' && i + 1 < value.size()) {
+            const char next = value[i + 1];
+            if (next == 'n' || next == 'r' || next == '\\') {
+                plain.push_back(next == 'n' ? '\n' : (next == 'r' ? '\r' : '\\'));
+                ++i;
+                continue;
+            }
+        }
+        plain.push_back(value[i]);
+    }
+    return plain;
+}
+
 ControlResponse parse_response(NativeSocket socket, const ControlTransferProgress* progress) {
     ControlResponse response{};
     std::string line;
@@ -181,7 +200,7 @@ ControlResponse parse_response(NativeSocket socket, const ControlTransferProgres
                 break;
             }
         } else {
-            response.fields[key] = value;
+            response.fields[key] = unescape_value(value);
         }
     }
 
